@@ -125,15 +125,27 @@ def uniqueInOrder (tps : List TypePath) : List TypePath :=
   tps.foldl (fun acc tp => if acc.contains tp then acc else acc ++ [tp]) []
 
 /-- `check_child_errors` -/
-def checkChildErrors (childAttr : ChildAttr) (structAttrs : DataTypeAttrs) (tp : TypePath) (errors : Errors) : Errors :=
+def checkChildPathErrors (childPath : ChildPath) (structAttrs : DataTypeAttrs) (tp : TypePath) (errors : Errors) : Errors :=
   let childrenAttr := structAttrs.childParentsAttr tp
-  childAttr.childPath.strs.foldl (fun es path =>
+  childPath.strs.foldl (fun es path =>
     match childrenAttr with
     | some ca =>
       if !ca.childParents.any (fun x => x.fieldPathStr == path) then
         es.insert ("Missing '" ++ path ++ ": [Type Path]' instruction for type " ++ tp.pathStr)
       else es
     | none => es.insert ("Missing #[child_parents(...)] instruction for " ++ tp.pathStr)) errors
+
+/-- `check_child_errors` -/
+def checkChildErrors (childAttr : ChildAttr) (structAttrs : DataTypeAttrs) (tp : TypePath) (errors : Errors) : Errors :=
+  checkChildPathErrors childAttr.childPath structAttrs tp errors
+
+/-- a struct-level ghost addressed to a nested struct (`path@name: ..`) needs that struct's type, for the Into conversions -/
+def ghostChildPass (dta : DataTypeAttrs) (es : Errors) (x : TraitAttrCore × Kind) : Errors :=
+  if !x.2.isFrom && !x.2.isIntoExisting then
+    match dta.ghostsAttr x.1.ty x.2 with
+    | some ga => (ga.ghostData.filterMap (·.childPath)).foldl (fun es cp => checkChildPathErrors cp dta x.1.ty es) es
+    | none => es
+  else es
 
 /-- the per-field check shared by `validate_fields` (tuple struct + `as {}`) and `validate_variant_fields` -/
 def memberNameCheck (field : Field) (ty : TypePath) (k : Kind) (noAttrMsg : String) (errors : Errors) : Errors :=
@@ -188,6 +200,7 @@ def validateFields (input : Struct) (byKind : List (TraitAttrCore × Kind)) (typ
   let fromTypePaths := uniqueInOrder ((byKind.filter fun (x, k) => x.update.isNone && k.isFrom).map (·.1.ty))
   let es := input.fields.foldl (fun es field => ghostDefaultPass fromTypePaths field es) errors
   let es := (input.fields.flatMap (·.attrs.childAttrs)).foldl (fun es ca => childPass input.attrs typePaths intoTypePaths ca es) es
+  let es := byKind.foldl (ghostChildPass input.attrs) es
   if !input.namedFields then
     byKind.foldl (fun es x => namePass input x.1 x.2 es) es
   else es
@@ -213,6 +226,12 @@ def validateVariantFields (input : Variant) (dta : DataTypeAttrs) (errors : Erro
     byKind.foldl (fun es x => variantNamePass input x.1 x.2 es) errors
   else errors
 
+/-- entries of struct-level and variant-level `#[ghosts(..)]` name members: a destructuring pattern is reported -/
+def ghostPatternPass (msg : String) (g : GhostData) (es : Errors) : Errors :=
+  match g.ghostIdent with
+  | .destruction _ => es.insert msg
+  | _ => es
+
 /-- the body of the `for member in input.get_members()` loop of `validate` -/
 def validateMember (input : DataType) (isEnum : Bool) (typePaths : List TypePath) (byKind : List (TraitAttrCore × Kind))
     (es : Errors) (member : DataTypeMember) : Errors :=
@@ -232,6 +251,7 @@ def validateMember (input : DataType) (isEnum : Bool) (typePaths : List TypePath
       validateParentAttrs named ma.parentAttrs byKind es
     | .variant v =>
       let es := barkAtMemberAttr ma.parentAttrs.length "parent" es
+      let es := (ma.ghostsAttrs.flatMap (·.attr.ghostData)).foldl (fun es g => ghostPatternPass "Variant-level #[ghosts(...)] should name a member of the other type's variant, not a pattern." g es) es
       let es := validateDedicatedMemberAttrs (ma.litAttrs.map (·.containerTy)) (some "literal") typePaths es
       let es := validateDedicatedMemberAttrs (ma.patAttrs.map (·.containerTy)) (some "pattern") typePaths es
       let es := validateDedicatedMemberAttrs (ma.typeHintAttrs.map (·.containerTy)) (some "type_hint") typePaths es
@@ -266,10 +286,24 @@ def updatePass (input : DataType) (es : Errors) (x : TraitAttrCore × Kind) : Er
     else es
   else es
 
+def DataType.isEnum : DataType → Bool
+  | .enum _ => true
+  | .struct _ => false
+
+/-- the closing `match input { .. }` of `validate`: member names of type-level ghosts, then the per-shape member checks -/
+def validateEnd (input : DataType) (byKind : List (TraitAttrCore × Kind)) (typePaths : List TypePath) (es : Errors) : Errors :=
+  match input with
+  | .struct s =>
+    let es := (input.attrs.ghostsAttrs.flatMap (·.attr.ghostData)).foldl (fun es g => ghostPatternPass "Struct-level #[ghosts(...)] should name a member of the other type, not a pattern." g es) es
+    validateFields s byKind typePaths es
+  | .enum e =>
+    let es := (input.attrs.ghostsAttrs.flatMap (·.attr.ghostData)).foldl (fun es g => enumGhostIdentPass g es) es
+    e.variants.foldl (fun es v => validateVariantFields v input.attrs es) es
+
 /-- `validate`: the diagnostics in report order (empty = accepted) -/
 def validate (input : DataType) : Errors :=
   let attrs := input.attrs
-  let isEnum := match input with | .enum _ => true | .struct _ => false
+  let isEnum := input.isEnum
   let es : Errors := if attrs.attrs.isEmpty then ["At least one trait instruction is expected."] else []
   let es := validateErrorInstrs isEnum attrs.errorInstrs es
   let es := validateKinds.foldl (fun es k => validateStructAttrs (attrs.iterForKindCore k false) false es) es
@@ -281,10 +315,6 @@ def validate (input : DataType) : Errors :=
   let byKind := attrsByKind attrs
   let es := byKind.foldl (updatePass input) es
   let es := input.members.foldl (validateMember input isEnum typePaths byKind) es
-  match input with
-  | .struct s => validateFields s byKind typePaths es
-  | .enum e =>
-    let es := (attrs.ghostsAttrs.flatMap (·.attr.ghostData)).foldl (fun es g => enumGhostIdentPass g es) es
-    e.variants.foldl (fun es v => validateVariantFields v attrs es) es
+  validateEnd input byKind typePaths es
 
 end O2o
